@@ -2,8 +2,8 @@ CONSTANTS
  Producers = {"p1","p2"}
  K = 2
  Shapes <- ShOk12
- MaxFaults = 1
- MaxCrashes = 1
+ MaxFaults = 0
+ MaxCrashes = 0
  InlineAt = 0
  Interval = 2
  MBs = {0,9,80,200}
